@@ -17,7 +17,7 @@ from vlib import core
 from vlib.coqterm import App
 
 HEADER = ('From Coq Require Import List NArith Bool.\nFrom DV Require Import C06.Model.\nImport ListNotations.\nOpen Scope N_scope.\n')
-HEADER_LR = ('From Coq Require Import List NArith ZArith Bool.\nFrom DV Require Import C06.Model C06.Lr.\nImport ListNotations.\n')
+HEADER_LR = ('From Coq Require Import List NArith ZArith Bool.\nFrom DV Require Import Gen.LalrTables C06.Model C06.Lr.\nImport ListNotations.\n')
 
 # ------------------------------------------------------------------------------------------------ operator table (mirror of Model.v)
 BINOPS = ['Or', 'And', 'Eq', 'Nq', 'Lt', 'Le', 'Gt', 'Ge', 'InOp', 'Sub', 'Add', 'Mul', 'Div', 'Exp']
@@ -376,7 +376,7 @@ class Renderer:
         if k == 'neg':
             return [('-', '')] + self.at(C_NEG, t[1])
         if k == 'btw':
-            return self.at(LV_BETWEEN, t[1]) + [('between', 'kw')] + self.lo_bound(t[2]) + [('and', 'kw')] + self.at(RC_BETWEEN, t[3])
+            return self.at(LV_BETWEEN, t[1]) + [('between', 'kw')] + self.lo_bound(t[2]) + [('and', 'kwband')] + self.at(RC_BETWEEN, t[3])
         if k == 'inst':
             return self.at(C_POST, t[1]) + [('instance', 'kw'), ('of', 'kw'), (t[2][0], 'atom')]
         if k == 'path':
@@ -509,8 +509,8 @@ def layout(toks, rng, style):
     for i, (tx, fl) in enumerate(toks):
         if i:
             ptx, pfl = toks[i - 1]
-            must = (pfl in ('kw', 'nolayout')) or (ptx in ('true', 'false', 'null') and tx == '(') or (wordy_end(ptx) and wordy_start(tx)) or ptx == '/' or (ptx == '..' and tx[0] == '.') \
-                or (ptx in ('<', '>', '!', '*', '-', '.') and tx[0] in '=*>.') or fl == 'kw' and wordy_end(ptx)
+            must = (pfl in ('kw', 'kwband', 'nolayout')) or (ptx in ('true', 'false', 'null') and tx == '(') or (wordy_end(ptx) and wordy_start(tx)) or ptx == '/' or (ptx == '..' and tx[0] == '.') \
+                or (ptx in ('<', '>', '!', '*', '-', '.') and tx[0] in '=*>.') or fl in ('kw', 'kwband') and wordy_end(ptx)
             out.append(gap(rng, style, must, pfl in ('nolayout', 'bind')))
         out.append(tx)
     lead = gap(rng, style, False, False) if style not in ('tight', 'plain') else ''
@@ -615,6 +615,46 @@ def opt_tree(ids, c):
     if isinstance(c, App) and c.name == 'Some':
         return ids.tree_ast(c.args[0])
     return None
+
+
+# ------------------------------------------------------------------------------------------------ token types for the tables model
+KW_TOK = {'or': 'Or', 'and': 'And', 'in': 'In', 'between': 'Between', 'instance': 'Instance', 'of': 'Of', 'if': 'If', 'then': 'Then', 'else': 'Else',
+          'for': 'For', 'return': 'Return', 'some': 'Some', 'every': 'Every', 'satisfies': 'Satisfies', 'function': 'Function', 'not': 'Not'}
+SYM_TOK = {'=': 'Eq', '!=': 'Nq', '<': 'Lt', '<=': 'Le', '>': 'Gt', '>=': 'Ge', '+': 'Plus', '-': 'Minus', '*': 'Mul', '/': 'Div', '**': 'Exp',
+           '(': 'LeftParen', ')': 'RightParen', '[': 'LeftBracket', ']': 'RightBracket', '{': 'LeftBrace', '}': 'RightBrace', ',': 'Comma', ':': 'Colon',
+           '.': 'Dot', '..': 'Ellipsis'}
+
+
+def lr_tokens(toks, mode):
+    """Renderer tokens -> Coq list of (TokenType, 0) for Lr.accepts; None when a token has no type here."""
+    out = ['tok_StartUnaryTests' if mode == 'unary' else 'tok_StartExpression']
+    for tx, fl in toks:
+        if fl == 'kwband':
+            out.append('tok_BetweenAnd')
+        elif fl in ('kw', 'nolayout') and tx in KW_TOK:
+            out.append('tok_' + KW_TOK[tx])
+        elif fl in ('atom', 'bind'):
+            if tx.startswith('"'):
+                out.append('tok_String')
+            elif tx.startswith('@'):
+                out += ['tok_At', 'tok_String']
+            elif tx[0].isdigit() or tx[0] == '.':
+                out.append('tok_Numeric')
+            elif tx == '-1':
+                out += ['tok_Minus', 'tok_Numeric']
+            elif tx in ('true', 'false'):
+                out.append('tok_Boolean')
+            elif tx == 'null':
+                out.append('tok_Null')
+            elif tx in ('number', 'string', 'boolean', 'date', 'Any'):
+                out.append('tok_BuiltInTypeName')
+            else:
+                out.append('tok_Name')
+        elif tx in SYM_TOK:
+            out.append('tok_' + SYM_TOK[tx])
+        else:
+            return None
+    return '[' + '; '.join('(%s, 0%%N)' % t for t in out) + ']'
 
 
 # ------------------------------------------------------------------------------------------------ known classes
@@ -935,6 +975,24 @@ def run(ctx):
             ctx.corr_broken('unescape', {'literal': a['text']}, a['cps'], got)
     reqs = [{'bind': BIND, 'e': c['text'], 'mode': c['mode']} for c in cases]
     impl = ctx.run_impl('ast', reqs)
+    # the committed tables (driver model, no actions) decide acceptance of the token sequence of every kind of tree: binders, collections,
+    # ranges and unary tests included; the real parser must accept exactly then (the between-flag class is lexical and skipped)
+    acc_cases, acc_terms = [], []
+    order = sorted(range(len(cases)), key=lambda i: (cases[i].get('frag', False), i % 7))
+    for i in order:
+        c = cases[i]
+        if c.get('toks') and len(acc_terms) < ctx.pick(1500, 20000) and classify(c) != 'between-lower-bound-and':
+            term = lr_tokens(c['toks'], c['mode'])
+            if term:
+                acc_cases.append(i)
+                acc_terms.append('accepts %s' % term)
+    acc = ctx.run_model(HEADER_LR, acc_terms, shard_size=100, tag='acc') if acc_terms else []
+    acc_bad = 0
+    for i, a in zip(acc_cases, acc):
+        got_ok = 'ast' in impl[i]
+        if bool(a) != got_ok:
+            acc_bad += 1
+            ctx.corr_broken('acceptance', {'text': cases[i]['text']}, 'accepted' if got_ok else 'rejected', 'accepted' if a else 'rejected')
     hist = {}
     fails = []
     for c, got in zip(cases, impl):
@@ -978,7 +1036,7 @@ def run(ctx):
              'postfix neighbours, binders, collections, ranges, unary tests) rendered minimally, fully parenthesised and with each needed pair removed, '
              'layouts tight / single space / Unicode white space / comments / several comments in a row; literals in every spelling; '
              'non-trivial = distinct input texts of non-atomic trees',
-        extra_cov={'renderings': hist, 'model_rendered_fragment_trees': len(owners), 'model_decoded_string_literals': len(lits), 'model_failures': model_failures,
+        extra_cov={'renderings': hist, 'model_rendered_fragment_trees': len(owners), 'model_decoded_string_literals': len(lits), 'tables_acceptance_checked': len(acc_cases), 'tables_acceptance_disagreements': acc_bad, 'model_failures': model_failures,
                    'tables': 'Gen/LalrTables.v regenerated from feel-parser/src/lalr.rs on this run (2312 pairs + 78608 triples re-proved when it changes)'},
         assumptions=['names are single words bound in the parsing scope (multi-word names are C10)',
                      'lexical rules of the text level applied by the renderer: a keyword is followed by white space; `and`/`between` at the top level of a '
